@@ -14,6 +14,7 @@ import (
 // Stage is one query of a pipeline; {SRC} in SQL is replaced by the source name (a table key, a CTE
 // name, or the materialised key in the staged form).
 type C07Case struct {
+	Env  Envelope       `json:"env,omitempty"` // how the composed / outer query is run (never Wrapped); staged and standalone runs stay plain
 	Doc  map[string]any `json:"doc"`
 	Form string         `json:"form"`
 	// composition forms
@@ -43,12 +44,22 @@ func init() {
 			"reference 'some element satisfies p'). Non-trivial: inner result non-empty and the outer stage filters or projects it.",
 		Assumptions: []string{
 			"outer and nested column names are disjoint in EXISTS; derived tables are always aliased",
+			"a third of the cases run the composed query inside an envelope that must not change the result: PostgresEscapingDialect / IdiomaticArrays on (no double quotes or brackets in the text), tables handed over as []map[string]any, a second execution on the same input object, and the same text run before on a different document",
 			"inner/outer queries come from the conservative filter/projection/aggregate/order grammar so that failures are about composition",
 			"an empty select-item subquery result may be NULL or an empty array",
 		},
-		Gen:      genC07,
-		New:      func() any { return &C07Case{} },
-		Check:    func(c any) Result { return checkC07(c.(*C07Case)) },
+		Gen: func(t *rapid.T) any {
+			c := genC07(t).(*C07Case)
+			c.Env = genEnvelope(t, "env")
+			c.Env.Wrapped = false
+			return c
+		},
+		New: func() any { return &C07Case{} },
+		Check: func(c any) Result {
+			r := checkC07(c.(*C07Case))
+			r.Labels = append(r.Labels, c.(*C07Case).Env.Labels()...)
+			return r
+		},
 		Quick:    2000,
 		Thorough: 150000,
 	})
@@ -226,7 +237,10 @@ func genC07(t *rapid.T) any {
 	case "cte":
 		qi, sch := genInnerQuery(t, sc.tb, "i1")
 		qo, ord := genOuterQuery(t, sch, "", "o")
-		c.Composed = "WITH c AS (" + fmt.Sprintf(qi, "t") + ") " + fmt.Sprintf(qo, "c")
+		// the name of a CTE may be that of a table of the document (which the inner query does not read):
+		// inside the statement the name then denotes the CTE
+		name := rapid.SampledFrom([]string{"c", "c", "c", "t2"}).Draw(t, "ctename")
+		c.Composed = "WITH " + name + " AS (" + fmt.Sprintf(qi, "t") + ") " + fmt.Sprintf(qo, name)
 		c.Stages = []string{fmt.Sprintf(qi, "t"), fmt.Sprintf(qo, "m1")}
 		c.Ordered = ord
 	case "derived":
@@ -239,7 +253,8 @@ func genC07(t *rapid.T) any {
 		qi, sch1 := genInnerQuery(t, sc.tb, "i1")
 		qm, sch2 := genInnerQuery(t, sch1, "i2")
 		qo, ord := genOuterQuery(t, sch2, "", "o")
-		c.Composed = "WITH c1 AS (" + fmt.Sprintf(qi, "t") + "), c2 AS (" + fmt.Sprintf(qm, "c1") + ") " + fmt.Sprintf(qo, "c2")
+		n2 := rapid.SampledFrom([]string{"c2", "c2", "t2"}).Draw(t, "ctename2")
+		c.Composed = "WITH c1 AS (" + fmt.Sprintf(qi, "t") + "), " + n2 + " AS (" + fmt.Sprintf(qm, "c1") + ") " + fmt.Sprintf(qo, n2)
 		c.Stages = []string{fmt.Sprintf(qi, "t"), fmt.Sprintf(qm, "m1"), fmt.Sprintf(qo, "m2")}
 		c.Ordered = ord
 	case "twice-join":
@@ -376,6 +391,9 @@ func emptyAsNil(v any) any {
 
 func checkC07(c *C07Case) Result {
 	res := Result{Labels: []string{"form:" + c.Form}}
+	if strings.HasPrefix(c.Composed, "WITH t2 AS") || strings.Contains(c.Composed, "), t2 AS (") {
+		res.Labels = append(res.Labels, "cte-named-like-a-document-table")
+	}
 	rows, _ := c.Doc["t"].([]any)
 	switch c.Form {
 	case "cte", "derived", "chain", "twice-join", "twice-insub", "twice-filter-join", "twice-filter-sub", "path":
@@ -402,7 +420,7 @@ func checkC07(c *C07Case) Result {
 				doc[fmt.Sprintf("m%d", i+1)] = raw
 			}
 		}
-		comp := Run(val.CopyMap(c.Doc), c.Composed, Opts{})
+		comp := c.Env.Exec(val.CopyMap(c.Doc), c.Composed)
 		res.Execs++
 		if !comp.OK() {
 			res.Violation = fmt.Sprintf("composed query fails but the staged evaluation succeeds\n  composed: %s\n  got %s\n  staged:   %s\n  -> %s", c.Composed, comp.Describe(), strings.Join(c.Stages, " ; "), val.JSON(last.Rows))
@@ -423,7 +441,7 @@ func checkC07(c *C07Case) Result {
 		res.NonTrivial = firstLen > 0 && (strings.Contains(lastQ, " WHERE ") || !strings.HasPrefix(lastQ, "SELECT * FROM m"))
 		return res
 	case "sel-sub", "sel-sub-root":
-		out := Run(val.CopyMap(c.Doc), c.Outer, Opts{})
+		out := c.Env.Exec(val.CopyMap(c.Doc), c.Outer)
 		res.Execs++
 		if !out.OK() {
 			res.Violation = fmt.Sprintf("%s\n  got %s", c.Outer, out.Describe())
@@ -480,7 +498,7 @@ func checkC07(c *C07Case) Result {
 				want = append(want, r)
 			}
 		}
-		out := Run(val.CopyMap(c.Doc), c.Outer, Opts{})
+		out := c.Env.Exec(val.CopyMap(c.Doc), c.Outer)
 		res.Execs++
 		if !out.OK() {
 			res.Violation = fmt.Sprintf("%s\n  got %s", c.Outer, out.Describe())
@@ -529,7 +547,7 @@ func checkC07(c *C07Case) Result {
 				want = append(want, r)
 			}
 		}
-		out := Run(val.CopyMap(c.Doc), c.Outer, Opts{})
+		out := c.Env.Exec(val.CopyMap(c.Doc), c.Outer)
 		res.Execs++
 		if !out.OK() {
 			res.Violation = fmt.Sprintf("%s\n  got %s", c.Outer, out.Describe())
